@@ -24,7 +24,7 @@ def _fam(quick, thorough):
 
 PROPS = {
     'C01': dict(title='Query conforms to the path semantics',
-                families=_fam([('pg', 0), ('rand', 5000), ('struct', 2500), ('filter', 2500), ('sub', 2000), ('desc', 2000), ('meth', 1500), ('compose', 1500)],
+                families=_fam([('pg', 0), ('rand', 5000), ('struct', 2500), ('filter', 2500), ('sub', 2000), ('desc', 2000), ('meth', 1500), ('compose', 1500), ('ctx', 2000)],
                               [('pg', 0), ('rand', 150000), ('struct', 60000), ('filter', 60000), ('sub', 50000), ('desc', 50000), ('meth', 20000), ('compose', 30000), ('kleene', 20000)]),
                 spec=lambda l: l['entry'] == 'query', tags=['C01']),
     'C05': dict(title='execution is total, pure and classified',
@@ -39,17 +39,17 @@ PROPS = {
                 families=_fam([('struct', 12000)], [('struct', 250000), ('sub', 30000), ('desc', 30000)]),
                 spec=lambda l: l['entry'] == 'query', tags=['C07']),
     'C08': dict(title='WithSilent suppresses exactly the suppressible errors',
-                families=_fam([('pg', 0), ('rand', 6000), ('struct', 3000), ('filter', 2500), ('meth', 2000)],
+                families=_fam([('pg', 0), ('rand', 6000), ('struct', 3000), ('filter', 2500), ('meth', 2000), ('ctx', 3000)],
                               [('rand', 150000), ('struct', 60000), ('filter', 60000), ('meth', 20000), ('kleene', 30000)]),
-                spec=lambda l: l['silent'], tags=['C08']),
+                spec=lambda l: True, tags=['C08']),
     'C09': dict(title='steps compose; context is left intact',
-                families=_fam([('compose', 5000), ('group9', 2500)], [('compose', 60000), ('group9', 40000)]),
+                families=_fam([('ctx', 6000), ('compose', 4000), ('group9', 2500)], [('ctx', 0), ('compose', 60000), ('group9', 40000)]),
                 spec=lambda l: l['entry'] == 'query', tags=['C09']),
     'C10': dict(title='a filter keeps exactly the items whose condition is true',
-                families=_fam([('filter', 8000), ('group10', 2500)], [('filter', 200000), ('group10', 40000)]),
+                families=_fam([('filter', 8000), ('group10', 2500), ('ctx', 3000)], [('filter', 200000), ('group10', 40000), ('ctx', 0)]),
                 spec=lambda l: l['entry'] == 'query', tags=['C10']),
     'C11': dict(title='Kleene connectives',
-                families=_fam([('kleene', 9000), ('group11', 2000)], [('kleene', 200000), ('group11', 30000)]),
+                families=_fam([('kleene', 9000), ('group11', 2000), ('ctx', 3000)], [('kleene', 200000), ('group11', 30000), ('ctx', 0)]),
                 spec=lambda l: l['entry'] in ('query', 'match'), tags=['C11']),
     'C12': dict(title='comparisons impose one consistent order',
                 families=_fam([('cmp', 12000), ('group12', 1)], [('cmp', 100000), ('group12', 3)]),
@@ -226,6 +226,18 @@ def proof_leg(prop, log):
     if n_print < len(thms):
         res['ok'] = False
         res['problems'].append('%d theorems but only %d Print Assumptions in props/%s.v' % (len(thms), n_print, prop))
+    # thorough tier: independent re-check of the compiled theorem file and everything it depends on
+    if os.environ.get('VERIF_TIER_EFFECTIVE') == 'thorough' and res['ok']:
+        t1 = time.time()
+        rc = sh(['flock', os.path.join(BUILD, '.lock'), 'timeout', '3000', 'coqchk', '-silent', '-o', '-Q', '.', 'SJ', 'SJ.props.' + prop], cwd=coq)
+        outc = rc.stdout + rc.stderr
+        m = re.search(r'\* Axioms:(.*?)\n\s*\n\* Constants', outc, flags=re.S)
+        res['coqchk'] = {'rc': rc.returncode, 'wall_s': round(time.time() - t1, 1),
+                         'axioms': (m.group(1).strip() if m else 'unparsed'), 'tail': outc[-600:]}
+        log.append('coqchk: rc=%d %.1fs axioms=%s' % (rc.returncode, time.time() - t1, res['coqchk']['axioms'][:80]))
+        if rc.returncode != 0:
+            res['ok'] = False
+            res['problems'].append('coqchk failed: ' + outc[-400:])
     res['discharged'] = len(thms) if res['ok'] else 0
     res['assumption_output'] = {'closed': closed, 'with_axioms': len(re.findall(r'^Axioms:', out, flags=re.M))}
     return res
@@ -306,6 +318,8 @@ def main(argv):
             i += 1
     if tier not in ('quick', 'thorough'):
         tier = 'quick'
+    os.environ['VERIF_TIER_EFFECTIVE'] = tier
+    ENV['VERIF_TIER_EFFECTIVE'] = tier
     seed = int(os.environ.get('VERIF_SEED', '1') or '1')
     t_start = time.time()
     log = []
@@ -441,6 +455,48 @@ def generic_check(prop, tier, seed, replay, t_start, log, extra_oracle=None):
                 except OSError:
                     pass
 
+    # ---- the correspondence (or a proof obligation) is broken but no failing input yet: search harder —
+    # more cases, another seed, on the families where the disagreements appeared (and the context probes)
+    def has_violation():
+        for l in specbad + propbad:
+            cls = l.get('class', 'NONE')
+            parts = cls.split('+') if cls != 'NONE' else []
+            if not (parts and all(p in known_classes for p in parts)):
+                return True
+        return bool(prop == 'C05' and impure)
+    if not replay and not harness_failed and (ties or not P['ok']) and not has_violation():
+        tie_fams = []
+        for t in ties:
+            f = t['_fam']
+            if not f.startswith('file:') and f not in tie_fams:
+                tie_fams.append(f)
+        base = dict(cfg['families'][tier])
+        search_fams = [(f, max(4 * base.get(f, 2000), 8000)) for f in tie_fams] or [(f, 3 * n if n else 0) for f, n in cfg['families'][tier]]
+        if 'ctx' not in [f for f, _ in search_fams]:
+            search_fams.append(('ctx', 20000))
+        for fam, n in search_fams[:4]:
+            try:
+                lines, summary, sexp = run_family(prop, fam, n, seed + 7919, log, tag='_search')
+            except RuntimeError as e:
+                break
+            sexps[fam + '#search'] = sexp
+            for k, v in summary.items():
+                totals[k] = totals.get(k, 0) + v
+            for l in lines['SPEC']:
+                l['_fam'] = fam + '#search'
+                if cfg['spec'](l):
+                    specbad.append(l)
+            for l in lines['PROP']:
+                l['_fam'] = fam + '#search'
+                if l.get('tag') in cfg['tags']:
+                    propbad.append(l)
+            for l in lines['TIE'] + lines['POLLS']:
+                l['_fam'] = fam + '#search'
+                ties.append(l)
+            if has_violation():
+                break
+        log.append('extended search over %s' % [f for f, _ in search_fams[:4]])
+
     # ---- classify
     violations = []       # failing inputs not explained by a listed finding
     seen_known = {}
@@ -520,6 +576,7 @@ def generic_check(prop, tier, seed, replay, t_start, log, extra_oracle=None):
             'theorems': P.get('theorems', []),
             'axioms_reported_by_print_assumptions': P.get('axioms', []),
             'proof_leg_problems': P.get('problems', []),
+            'coqchk': P.get('coqchk'),
             'evaluations': evals,
             'distinct_nontrivial': distinct,
             'rule': 'cases are generated by harness/ (families %s, one PRNG seeded with VERIF_SEED) and run through the implementation '
